@@ -102,7 +102,7 @@ class AV:
     def contents(self):
         """Value obtained by reading an element / iterating.  A pure literal table ("GT") holds
         immutable scalars only, so its own identity does not flow into its elements."""
-        return AV(self.elem | {o for o in self.own if o[0] not in ("GT", "G", "T")}, self.elem, self.funcs,
+        return AV(self.elem | {o for o in self.own if o[0] not in ("GT", "G", "T", "L")}, self.elem, self.funcs,
                   [k for k in self.classes if k == ("py",)])
 
 
@@ -158,8 +158,12 @@ class E2:
                 self.GLOB[(m, g)] = AV(own=[("GT", m, g)], elem=[("C",)])
             elif self._py_container(self.repo.modules[m].globals[g]):
                 # a dict/list (or a None placeholder rebound later): G is the container itself,
-                # GE anything stored in it
-                self.GLOB[(m, g)] = AV(own=[o], elem=[("GE", m, g)])
+                # GE anything stored in it (added when something that is not an immutable scalar
+                # is stored)
+                v0 = self.repo.modules[m].globals[g]
+                empty = (isinstance(v0, (ast.Dict, ast.List, ast.Set)) and not (getattr(v0, "keys", None) or getattr(v0, "elts", None))) \
+                    or (isinstance(v0, ast.Constant) and v0.value is None)
+                self.GLOB[(m, g)] = AV(own=[o], elem=[] if empty else [("GE", m, g)])
             else:
                 # arrays and other objects: every write is a write to shared content
                 self.GLOB[(m, g)] = AV(own=[("GE", m, g)], elem=[("GE", m, g)])
@@ -383,7 +387,7 @@ class Interp:
         # an object created here but (also) stored in module-level state is shared from the
         # store onwards: a later write changes what the cache hands out
         for o in av.own:
-            if o[0] == "F" and o in self.eng.SHARED_F:
+            if o[0] in ("F", "L") and o in self.eng.SHARED_F:
                 (gm, gn), sq, sline = self.eng.SHARED_OWNER[o]
                 if sq != self.f.qual or getattr(node, "lineno", 0) > sline:
                     bad.append(("GE", gm, gn))
@@ -398,7 +402,7 @@ class Interp:
         if not self.eng.track_escapes:
             return
         for o in av.own:
-            if o[0] in ("P", "PE", "G", "GE") or (o[0] == "F" and o in self.eng.SHARED_F):
+            if o[0] in ("P", "PE", "G", "GE") or (o[0] in ("F", "L") and o in self.eng.SHARED_F):
                 chain = (self.f.qual, self.where(node), what, norm(node)[:160], via)
                 lst = self.S.esc.setdefault(o, [])
                 if chain not in lst:
@@ -487,14 +491,14 @@ class Interp:
         o = ("G", module, name)
         ge = ("GE", module, name)
         stored = {x for x in av.own | av.elem if x[0] not in ("C", "T")}
-        new = AV(g.own | {o}, g.elem | stored | {ge}, g.funcs | av.funcs, g.classes | av.classes)
+        new = AV(g.own | {o}, g.elem | stored | ({ge} if stored else set()), g.funcs | av.funcs, g.classes | av.classes)
         unfrozen = {x for x in stored if not (x[0] == "FROZEN" or x in self.eng.FROZEN_SITES)}
         if unfrozen and key not in self.eng.UNFROZEN_STORE:
             self.eng.UNFROZEN_STORE[key] = (self.f.qual, self.where(node), norm(node)[:120])
             self.eng.touch()
         self.eng.STORE_SITES.setdefault(key, set()).add((self.f.qual, self.where(node), norm(node)[:120]))
         for vo in unfrozen:
-            if vo[0] == "F" and vo not in self.eng.SHARED_F:
+            if vo[0] in ("F", "L") and vo not in self.eng.SHARED_F:
                 self.eng.SHARED_F.add(vo)
                 self.eng.SHARED_OWNER[vo] = (key, self.f.qual, getattr(node, "lineno", 0))
                 self.eng.touch()
@@ -576,7 +580,9 @@ class Interp:
     def ev_Tuple(self, e):
         vs = [self.ev(x.value if isinstance(x, ast.Starred) else x) for x in e.elts]
         j = joinall(vs)
-        kind = "T" if isinstance(e, ast.Tuple) else "F"  # a tuple display is an immutable container
+        # a tuple display is an immutable container ("T"); list/set displays are Python containers
+        # ("L"): like "F" they are created here, but their identity does not flow into their elements
+        kind = "T" if isinstance(e, ast.Tuple) else "L"
         return AV([(kind, self.site(e))], j.own | j.elem, j.funcs, ())
 
     ev_List = ev_Tuple
@@ -585,7 +591,7 @@ class Interp:
     def ev_Dict(self, e):
         vs = [self.ev(x) for x in e.values if x is not None] + [self.ev(k) for k in e.keys if k is not None]
         j = joinall(vs)
-        return AV([("F", self.site(e))], j.own | j.elem, j.funcs, ())
+        return AV([("L", self.site(e))], j.own | j.elem, j.funcs, ())
 
     def ev_Starred(self, e):
         return self.ev(e.value)
@@ -624,7 +630,7 @@ class Interp:
                 self.ev(c)
         r = elt_fn()
         self.env = saved
-        return AV([("F", self.site(e))], r.own | r.elem, r.funcs, ())
+        return AV([("L", self.site(e))], r.own | r.elem, r.funcs, ())
 
     def ev_ListComp(self, e):
         return self.comp(e, lambda: self.ev(e.elt))
@@ -645,7 +651,13 @@ class Interp:
         if isinstance(s, ast.UnaryOp) and isinstance(s.op, ast.Invert):
             return True
         if isinstance(s, ast.Call):
-            return True  # np.where(...), np.arange(...), np.array(...)
+            # index arrays: np.where(...), np.arange(...), np.array(...), mask-producing functions;
+            # other calls (bisect_left, int, len, ...) produce a scalar position
+            fn = norm(s.func).split(".")[-1]
+            return fn in ("where", "arange", "array", "asarray", "nonzero", "flatnonzero", "argwhere", "argsort",
+                          "unique", "isin", "isnan", "isfinite", "isinf", "logical_and", "logical_or", "logical_not",
+                          "ix_", "triu_indices", "tril_indices", "searchsorted", "digitize", "argmax", "argmin",
+                          "query_ball_point", "astype", "tolist", "list")
         if isinstance(s, ast.Tuple):
             return any(self.is_fancy(x) for x in s.elts)
         return False
@@ -859,7 +871,7 @@ class Interp:
             if name in FRESH_METHODS:
                 # x.copy(): deep for ndarrays (the dominant case in this package), shallow for Python
                 # containers -- the contents are kept only when the receiver is known to be one
-                pycont = any(o[0] == "T" for o in recv.own) or ("py",) in recv.classes or \
+                pycont = any(o[0] in ("T", "L") for o in recv.own) or ("py",) in recv.classes or \
                     (isinstance(fn.value, ast.Name) and self._is_py_container_name(fn.value.id))
                 keep = name == "tolist" or (name == "copy" and pycont)
                 return AV([("F", self.site(e))], recv.elem if keep else (), recv.funcs if keep else (),
@@ -935,7 +947,8 @@ class Interp:
                 keep_own = name in ("zip", "enumerate", "iter", "reversed", "map", "filter", "next")
                 if name == "next":
                     return j.contents()
-                return AV([("F", self.site(e))], j.elem | (j.own if keep_own else frozenset()), j.funcs, ())
+                return AV([("T" if name in ("tuple", "frozenset") else "L", self.site(e))],
+                          j.elem | (j.own if keep_own else frozenset()), j.funcs, ())
             if name in BUILTIN_CONST:
                 return CONST
             if name == "super":
@@ -1054,7 +1067,7 @@ class Interp:
             hit = True  # calling a library object (spline, interpolator, OdeSolution): fresh result
             out = out.join(self.fresh(e))
         if not hit:
-            if any(o[0] == "F" for o in fav.own) or not fav.own:
+            if any(o[0] in ("F", "L") for o in fav.own) or not fav.own:
                 self.eng.unresolved["<value call> " + norm(e.func)[:40]] += 1
             return self.fresh(e)
         return out
@@ -1245,8 +1258,46 @@ class Interp:
                 self.escape(v, s, "returned to the caller")
                 self._escape_display_elements(s.value, s, "returned to the caller (inside a tuple/list)")
 
+    SCALAR_TYPES = {"int", "float", "bool", "str", "complex", "np.integer", "np.floating", "np.int64", "np.int32",
+                    "np.float64", "Number", "Real", "Integral", "numbers.Number", "numbers.Real", "numbers.Integral"}
+
+    def _validated_scalars(self, s):
+        """Names that are immutable scalars (or None) whenever `if not (<test>): raise` falls through:
+        the test is a conjunction/disjunction of `N is None` and `isinstance(N, <scalar types>) ...`."""
+        if s.orelse or not (s.body and isinstance(s.body[-1], ast.Raise)):
+            return set()
+        t = s.test
+        if not (isinstance(t, ast.UnaryOp) and isinstance(t.op, ast.Not)):
+            return set()
+        names = set()
+
+        def scalar_cond(e, name_box):
+            if isinstance(e, ast.BoolOp):
+                if isinstance(e.op, ast.Or):
+                    return all(scalar_cond(v, name_box) for v in e.values)
+                return any(scalar_cond(v, name_box) for v in e.values)
+            if isinstance(e, ast.Compare) and len(e.ops) == 1 and isinstance(e.ops[0], ast.Is) and \
+                    isinstance(e.comparators[0], ast.Constant) and e.comparators[0].value is None and isinstance(e.left, ast.Name):
+                name_box.add(e.left.id)
+                return True
+            if isinstance(e, ast.Call) and norm(e.func) == "isinstance" and len(e.args) == 2 and isinstance(e.args[0], ast.Name):
+                types = [x.strip() for x in norm(e.args[1]).strip("()").replace("|", ",").split(",")]
+                if types and all(x in self.SCALAR_TYPES for x in types):
+                    name_box.add(e.args[0].id)
+                    return True
+            return False
+        box = set()
+        if scalar_cond(t.operand, box) and len(box) == 1:
+            names |= box
+        return names
+
     def st_If(self, s):
         self.ev(s.test)
+        for nm in self._validated_scalars(s):
+            # everything after this statement only runs when nm is None or a Python/NumPy scalar
+            self.run(s.body)
+            self.env[nm] = CONST
+            return
         e0 = dict(self.env)
         self.run(s.body)
         e1 = self.env
